@@ -99,6 +99,17 @@ def make_items(cx, spec, nprog, nenv, streams=('corpus', 'fragment', 'shapes')):
     if 'addrfam' in streams:
         for i in range(gen.N_ADDRFAM):
             items.append({'name': f'addrfam/{cx.seed}/{i}', 'src': gen.addrfam(cx.seed, i), 'nenv': nenv, 'seed': cx.seed, 'stream': 'addrfam'})
+    if 'branchcall' in streams:
+        rng = random.Random(f"branchcall/{cx.seed}")
+        idxs = list(range(gen.N_BRANCHCALL)); rng.shuffle(idxs)
+        for i in (idxs[:72] if cx.quick() else idxs):
+            src, tags = gen.branchcall(cx.seed, i)
+            items.append({'name': f'branchcall/{cx.seed}/{i}', 'src': src, 'nenv': max(30, nenv // 3), 'seed': cx.seed, 'stream': 'branchcall', 'tags': tags})
+    if 'lookalike' in streams:
+        rng = random.Random(f"lookalike/{cx.seed}")
+        idxs = list(range(gen.N_LOOKALIKE)); rng.shuffle(idxs)
+        for i in (idxs[:48] if cx.quick() else idxs):
+            items.append({'name': f'lookalike/{cx.seed}/{i}', 'src': gen.lookalike(cx.seed, i), 'nenv': max(30, nenv // 3), 'seed': cx.seed, 'stream': 'lookalike'})
     if 'layout' in streams:
         for i in range(nprog):
             items.append({'name': f'layout/{cx.seed}/{i}', 'src': gen.layout(cx.seed, i), 'nenv': nenv // 3, 'seed': cx.seed, 'stream': 'layout'})
@@ -189,7 +200,7 @@ def semantic_check(pid):
         if replay is not None:
             return do_replay(cx, pid, spec, replay)
         nprog, nenv = volumes(cx, 90, 100)
-        streams = ('corpus', 'fragment', 'shapes', 'direct', 'callfam') + (('twofield',) if pid in ('C01', 'C03', 'C07', 'C08') else ()) + (('layout',) if pid in ('C04', 'C05') else ()) + (('addrfam',) if pid in ('C01', 'C08') else ()) + (('straight',) if pid == 'C11' else ())
+        streams = ('corpus', 'fragment', 'shapes', 'direct', 'callfam') + (('branchcall', 'lookalike') if pid in ('C01', 'C03', 'C06', 'C07', 'C08', 'C09', 'C10') else ()) + (('twofield',) if pid in ('C01', 'C03', 'C07', 'C08') else ()) + (('layout',) if pid in ('C04', 'C05') else ()) + (('addrfam',) if pid in ('C01', 'C08') else ()) + (('straight',) if pid == 'C11' else ())
         items = make_items(cx, spec, nprog, nenv, streams)
         results = engine.run_items(items)
         src_of = {it['name']: it['src'] for it in items}
